@@ -33,7 +33,16 @@ def main():
     except ValueError:
         seed = 1
     os.chdir(os.path.dirname(os.path.dirname(os.path.abspath(__file__))))
+    import atexit
     import logging
+    import shutil
+    import tempfile
+
+    # one scratch root per run: worker processes end with os._exit (no atexit), so their private
+    # sandboxes are removed here, by the parent, whatever way the run ends
+    scratch = tempfile.mkdtemp(prefix="vp-run-")
+    os.environ["VERIF_SCRATCH"] = scratch
+    atexit.register(shutil.rmtree, scratch, True)
 
     logging.disable(logging.CRITICAL)
     try:
